@@ -44,6 +44,10 @@ type Sched struct {
 	panicVal  interface{}
 	MaxPoints int
 	Truncated bool
+	// Policy, when set, decides every choice after the prefix (default: 0 =
+	// keep running the current thread). It receives the enabled thread ids in
+	// canonical order and the running thread and returns an index into enabled.
+	Policy func(enabled []int, running int) int
 }
 
 func New(prefix []int) *Sched {
@@ -153,6 +157,10 @@ func (s *Sched) Run() (panicMsg string) {
 			choice = s.prefix[i]
 			if choice >= len(en) {
 				s.Diverged = fmt.Sprintf("point %d: prefix asks for choice %d of %d enabled threads", i, choice, len(en))
+				choice = 0
+			}
+		} else if s.Policy != nil {
+			if choice = s.Policy(en, s.cur); choice < 0 || choice >= len(en) {
 				choice = 0
 			}
 		}
